@@ -9,6 +9,14 @@ LEVEL_TEXT_COMMON = ("Bounded symbolic model checking of the real Go code: go/ss
 
 CHECKS = {
  # id: (design_ref, text, note, technique)
+ "C01": ("DESIGN.md §5 C01",
+         "Structural obligations on every reader that completes a handshake (ServerAuth, hidden ServerResponse on the client; ClientAuth, hidden request on the server): success implies each MAC/tag field equals the corresponding duplex squeeze, the certificate verifier returned success before the static DH, the static DH was computed over the VERIFIED leaf's key and absorbed before the final MAC, and nothing beyond the datagram was consumed; the verification policy function accepts iff parse-exact and (skip or authorized-keys or store) and callback; the server publishes a connection only after the client's certificate was judged by its CONFIGURED policy, in both modes; the chain predicate of C04 is discharged here as well.",
+         "Duplex, KEM, X25519, SHA3 and the AEAD are recorders with fresh outputs (ideal, collision-free reading; replay=none). Dolev-Yao adversary knowledge is not modelled: the check proves 'accept => MAC over the transcript containing DH(e,s) matched'.",
+         "SSA symbolic execution + SMT (z3), transcript-conformance obligations with recording crypto stubs"),
+ "C02": ("DESIGN.md §5 C02",
+         "Transcript conformance for all seven handshake messages: on success every received field before a MAC was absorbed/decrypted into the duplex in protocol order, byte for byte, every MAC field equals the squeeze that follows, the consumed length equals the message length and lies inside the datagram (truncation from stale receive-buffer bytes is a counterexample), the client flow consumes each datagram exactly; cookie replay re-absorbs the presented KEM key, the recovered secret and the cookie; the two directional keys are squeezed under different labels after a ratchet. With a collision-free duplex this is what makes any altered byte change a later MAC.",
+         "Same recording stubs as C01; KEM ciphertext bytes are bound only through decapsulation (by design of the protocol). Pairwise key distinctness across independent sessions rests on the freshness of ephemeral keys and is not a separate obligation.",
+         "SSA symbolic execution + SMT (z3), transcript-conformance obligations with recording crypto stubs"),
  "C03": ("DESIGN.md §5 C03",
          "One-step obligations from an arbitrary session state: a datagram of any length/content is delivered, or moves any state, only after exactly this datagram opened under this direction's key with its 16-byte header as associated data and a fresh counter, which is recorded afterwards; Write/WriteMsg chunking carries every byte once, in order, for every length 0..3*Max+1; the replay filter's inductive step is discharged here too. Concurrent writers and the confidentiality clause for handshake fields are outside this check (see DESIGN.md).",
          "Kravatte-SANSE replaced by a recording AEAD whose Open is nondeterministic (structural reading: which key/AD/bytes gate delivery; the primitive itself is C12). Receive-step harnesses use replay=none because the stub is not realisable natively; write harnesses replay natively.",
@@ -49,6 +57,10 @@ CHECKS = {
          "decode(encode(v)) == v field by field, with exact consumption, for tube frames, initiate frames, flag bytes, length-prefixed strings, certificate names / id chunks / certificates, intents and grant messages, denials, proxy responses, exec requests, window sizes and userauth requests; lengths straddle every length-field boundary (255/256, 252/253, 65535/65536); decode-encode-decode for certificates. Port-forward addresses are not covered (textual host/port functions).",
          "Multi-field messages take their length fields from stated grids; SHA3 (certificate fingerprint) replaced by fresh bytes; userauth tube I/O replaced by a byte stream (replay=none there).",
          "SSA symbolic execution + SMT (z3), round-trip obligations with symbolic fields"),
+ "C19": ("DESIGN.md §5 C19",
+         "ClientHello of any length/content leaves the handshake and session tables unchanged and triggers at most one datagram, to the source; a ClientAck is accepted only if the cookie field of THIS datagram opened under the server's current cookie key with associated data = hash over (KEM key of this datagram, source IP of length 4 or 16, source port); a hidden-mode server with 1-2 certificates emits a datagram only for a hidden request of exact length whose KEM ciphertext was decapsulated with its own key, whose tag and final MAC matched, whose certificate verified and whose authenticated timestamp lies within the 5 s window of the (symbolic) clock - every other message type gets nothing.",
+         "AEAD/SHA3/KEM/duplex are recorders (replay=none). Replays inside the 5 s window are accepted by design and by the property's wording.",
+         "SSA symbolic execution + SMT (z3), one datagram from arbitrary server state with recording crypto stubs"),
  "C20": ("DESIGN.md §5 C20",
          "Glob(pattern,input) is total (unwinding bound = termination) and equals a branch-free dynamic-programming glob matcher for all patterns and inputs of length <= 5 (quick) / <= 7 (thorough) over all 256 byte values; MatchHost applies exactly the matching host blocks in order; VirtualHosts.Match returns the first match.",
          "Longer strings are outside the claim. MatchHost/VirtualHosts use concrete pattern sets (matching / non-matching / absent) with the real Glob.",
